@@ -131,8 +131,10 @@ fn header_verdict(w: &[u8]) -> Result<String, &'static str> {
 }
 fn window(s: &[u8]) -> &[u8] { match s.iter().position(|&b| b == 13) { Some(cr) => &s[..(cr + 2).min(s.len())], None => s } }
 
+/// spec_v1.rs v1_too_long: no CR within 107 bytes, or a CR at index 106 or beyond
+fn too_long(s: &[u8]) -> bool { match s.iter().position(|&b| b == 13) { None => s.len() >= 107, Some(cr) => cr + 2 > 107 } }
 pub fn oracle_v1_bytes(s: &[u8]) -> V1Out {
-    if !s.contains(&13) && s.len() >= 107 { return V1Out::Reject("HeaderTooLong".into()); }
+    if too_long(s) { return V1Out::Reject("HeaderTooLong".into()); }
     let w = window(s);
     if std::str::from_utf8(w).is_err() {
         // spec_v1.rs entry_verdict_bytes: a character cut short by the end of a line whose CR has not arrived yet
@@ -164,7 +166,7 @@ pub fn utf8_truncated(s: &[u8]) -> bool {
 }
 pub fn oracle_v1_str(s: &str) -> V1Out {
     let b = s.as_bytes();
-    if !b.contains(&13) && b.len() >= 107 { return V1Out::Reject("HeaderTooLong".into()); }
+    if too_long(b) { return V1Out::Reject("HeaderTooLong".into()); }
     let w = window(b);
     if !s.is_char_boundary(w.len()) { return V1Out::Reject("InvalidSuffix".into()); }
     match header_verdict(w) { Ok(a) => V1Out::Accept(a, w.to_vec()), Err(k) => V1Out::Reject(k.into()) }
